@@ -66,7 +66,9 @@ def run_config(ctx, r, idx):
 def _run_config(ctx, r, idx, bench, use_app):
 	n = len(bench.models)
 	names = [m.name for m in bench.models]
-	pool = r.sample(range(860000, 960000, 200), r.randint(3, 5))
+	# (a quarter of the configurations in the 1800 / 1900 MHz bands: seven-digit kHz values make a 64-channel SETFH longer
+	# than 1024 octets)
+	pool = r.sample(range(860000, 960000, 200) if r.random() < 0.75 else range(1710200, 1990000, 200), r.randint(3, 5))
 	log = []
 
 	def cmd(i, text):
@@ -156,9 +158,15 @@ def _run_config(ctx, r, idx, bench, use_app):
 			# its frame comes: recipients are those tuned to the sender *in that frame*
 			for nd in bench.nodes:
 				nd.rx_data()
-			fn = (fn + r.randint(2, 6)) % trxd.HYPERFRAME
+			far = r.choice((700, 5000, 100000, trxd.HYPERFRAME // 3)) if r.random() < 0.1 else 0
+			fn = (fn + (far or r.randint(2, 6))) % trxd.HYPERFRAME
 			m["fn"] = fn
 			acc = bench.nodes[s].data_raw(trxd.encode(m)) is not None
+			if far:
+				# handed over long before its frame (less than half a hyperframe): it simply waits, whatever ticks come first
+				bench.tick((fn - far + 1) % trxd.HYPERFRAME)
+				bench.tick((fn - far // 2) % trxd.HYPERFRAME)
+				ctx.count("bursts_queued_far_ahead")
 			cleared = snd.queue_cleared
 			for _ in range(r.randint(1, 3)):
 				j = r.randrange(n)
